@@ -2,6 +2,7 @@ import Mimium.Props.C13
 import Mimium.Proofs.ParserLoops
 import Mimium.Gen.ParserLoops
 import Mimium.Proofs.Occurs
+import Mimium.Proofs.OccursSeq
 import Mimium.Gen.TypingFacts
 /-!
 # C04 — front end and compile entry points are total on arbitrary text
@@ -178,6 +179,103 @@ theorem C04_occur_check_counterexample :
     have := hF F (Nat.le_refl _)
     rw [(occ_diverges 2 (by decide) F).1] at this
     cases this
+
+/-! ## The repaired (`||`) occurs check: sound, keeps the store acyclic, and therefore never diverges on a store the checker
+built itself — for ALL sequences of requests (`Model/OccursSeq.lean`: every place of /repo that writes a `parent` pointer) -/
+
+open Mimium.Occurs in
+/-- the `||` occurs check decides reachability, on EVERY store (cyclic or not), whenever it returns: `false` ⇒ `v` cannot be
+reached from `t` through `vars` and parent pointers, `true` ⇒ it can. (For the `&&` form the first half is false:
+`C04_occur_check_counterexample`.) -/
+theorem C04_occur_check_sound (σ : Store) (v fuel : Nat) (t : Ty) :
+    (occ σ false v fuel t = some false → ¬ Reach σ v t) ∧ (occ σ false v fuel t = some true → Reach σ v t) :=
+  ⟨occ_sound_reach σ v fuel t, occ_complete σ v fuel t⟩
+
+open Mimium.Occurs in
+/-- a binding that passed the `||` occurs check never creates a cycle. (The statement asked for also assumes
+`parent σ v = none`, which `get_root` guarantees in `unify_types`; it is not needed: an older binding of `v` is shadowed.) -/
+theorem C04_bind_preserves_acyclic (σ : Store) (v fuel : Nat) (t : Ty) (h : Acyclic σ)
+    (hocc : occ σ false v fuel t = some false) : Acyclic ((v, t) :: σ) :=
+  acyclic_cons σ v t h (occ_sound σ v fuel t hocc)
+
+open Mimium.Occurs in
+/-- the same for the binding step as a whole: whatever `bindVar · false` answers on an acyclic store, the store it leaves is acyclic -/
+theorem C04_bindVar_preserves_acyclic (σ σ' : Store) (v fuel : Nat) (t : Ty) (h : Acyclic σ)
+    (hb : bindVar σ false fuel v t = some (some σ')) : Acyclic σ' := by
+  unfold bindVar at hb
+  cases ho : occ σ false v fuel t with
+  | none => simp [ho] at hb
+  | some b =>
+    cases b with
+    | true => simp [ho] at hb
+    | false =>
+      simp only [ho, Option.some.injEq] at hb
+      subst hb
+      exact C04_bind_preserves_acyclic σ v fuel t h ho
+
+open Mimium.Occurs in
+/-- EXPLICIT fuel bound (strengthens `C04_occur_check_total_partial`): on an acyclic store `occur_check(id1, t)` nests at most
+`size t + total σ` calls (constructors of `t` plus constructors of all parents), with either operator; `get_root` follows at
+most one pointer per entry. -/
+theorem C04_occur_check_fuel_bound (σ : Store) (h : Acyclic σ) (andQuirk : Bool) (id1 : Nat) (t : Ty) (fuel : Nat) :
+    (size t + total σ ≤ fuel → ∃ b, occ σ andQuirk id1 fuel t = some b) ∧
+    (σ.length + 1 ≤ fuel → ∃ r, root σ fuel t = some r) :=
+  ⟨occ_total_bound σ h andQuirk id1 t fuel, root_total_bound σ h t fuel⟩
+
+open Mimium.Occurs in
+/-- TERMINATION over all histories. For EVERY list of requests (calls of `unify_types` / `unify_types_args` with arbitrary
+types — an already-bound variable is replaced by its root first, as `get_root` does — and `extend_record_with_field`),
+processed from the empty store with the `||` occurs check and any fuel ≥ `fuelBound reqs`
+(`= (n + 1) * (m + 2 n) + 1` for `n` requests over types of ≤ `m` constructors):
+no `get_root` and no `occur_check` runs out of fuel (the run returns the list of all intermediate stores), and every
+intermediate store is acyclic, has at most `n` entries of at most `m + 2 n` constructors, so that every further
+`occur_check(id1, t)` on it returns within `size t + total σ ≤ size t + n * (m + 2 n)` nested calls. -/
+theorem C04_occurs_check_terminates (reqs : List Req) (fuel : Nat) (hf : fuelBound reqs ≤ fuel) :
+    ∃ trace, run fuel [] reqs = some trace ∧ trace.length = reqs.length ∧
+      ∀ σ ∈ trace, Acyclic σ ∧ σ.length ≤ reqs.length ∧ total σ ≤ reqs.length * (maxReq reqs + 2 * reqs.length) ∧
+        ∀ (id1 : Nat) (t : Ty) (f : Nat), size t + total σ ≤ f → ∃ b, occ σ false id1 f t = some b := by
+  obtain ⟨tr, hrun, hlen, hall⟩ := run_total reqs fuel hf
+  refine ⟨tr, hrun, hlen, fun σ hσ => ?_⟩
+  have hinv := hall σ hσ
+  exact ⟨hinv.1, hinv.2.1, hinv.total_le, fun id1 t f hfl => occ_total_bound σ hinv.1 false id1 t f hfl⟩
+
+open Mimium.Occurs in
+/-- the fuel of the model is not observable: every fuel ≥ `fuelBound reqs` gives the same list of stores -/
+theorem C04_run_independent_of_fuel (reqs : List Req) (fuel : Nat) (hf : fuelBound reqs ≤ fuel) :
+    run fuel [] reqs = run (fuelBound reqs) [] reqs := by
+  obtain ⟨tr, hrun, _⟩ := run_total reqs (fuelBound reqs) (Nat.le_refl _)
+  rw [hrun]
+  exact run_fuel_le _ _ hf reqs [] tr hrun
+
+open Mimium.Occurs in
+/-- CONCLUSION (the statement that `C04_occur_check_counterexample` refutes for the `&&` form): on every store the checker
+can build with the `||` form, `occur_check` answers for every variable and every type. -/
+theorem C04_occur_check_total_on_reachable_stores (reqs : List Req) (fuel : Nat) (trace : List Store)
+    (h : run fuel [] reqs = some trace) (σ : Store) (hσ : σ ∈ trace) (id1 : Nat) (t : Ty) :
+    ∃ F b, ∀ f, F ≤ f → occ σ false id1 f t = some b := by
+  have hmax : run (max fuel (fuelBound reqs)) [] reqs = some trace := run_fuel_le _ _ (Nat.le_max_left _ _) reqs [] trace h
+  obtain ⟨tr, hrun, _, hall⟩ := C04_occurs_check_terminates reqs (max fuel (fuelBound reqs)) (Nat.le_max_right _ _)
+  rw [hmax] at hrun
+  cases hrun
+  exact answers_of_acyclic σ false id1 (hall σ hσ).1 t
+
+open Mimium.Occurs in
+/-- non-vacuity of `C04_bind_preserves_acyclic` / `C04_occur_check_sound`: `?1 := [?0]` on the store `?0 := (?2) -> number`
+passes the check and is bound; `?2 := (?1, number)` is then refused (`?2` is reachable: `?1 → ?0 → ?2`). -/
+example : bindVar [(0, .fn (.var 2) .other)] false 9 1 (.unary (.var 0)) = some (some [(1, .unary (.var 0)), (0, .fn (.var 2) .other)]) ∧
+    bindVar [(1, .unary (.var 0)), (0, .fn (.var 2) .other)] false 9 2 (.anyOf (.var 1) .other) = some none := by decide
+
+open Mimium.Occurs in
+/-- non-vacuity of `C04_occurs_check_terminates`: six requests (a binding, a refused circular binding through an already-bound
+variable, a variable-variable link, a request on two variables with the same root, a record extension, a binding of the
+extension's variable); `fuelBound = 106`; the run with fuel 3 runs out, fuel 4 already gives the final answer. -/
+example :
+    let reqs : List Req := [.unify (.var 0) (.fn (.var 1) .other), .unify (.anyOf (.var 0) .other) (.var 1),
+      .unify (.var 2) (.var 1), .unify (.var 1) (.var 0), .extend 0 3, .unify (.var 3) (.unary (.var 2))]
+    fuelBound reqs = 106 ∧ run 3 [] reqs = none ∧ run 4 [] reqs = run 106 [] reqs ∧
+    (run 106 [] reqs).map (fun tr => tr.map List.length) = some [1, 1, 2, 2, 3, 4] ∧
+    (run 106 [] reqs).bind List.getLast? = some [(3, .unary (.var 2)), (0, .anyOf (.fn (.var 1) .other) (.var 3)),
+      (1, .var 2), (0, .fn (.var 1) .other)] := by decide +kernel
 
 open Mimium.Occurs in
 /-- PARTIAL: the range check of tuple projection is right for every index except `idx = len`: below it yields the element,
